@@ -566,7 +566,8 @@ TEXT = ("Held on every program observed: ~920 (quick) / ~15 000 (thorough) progr
         "evidence counts programs whose internal run order differed between hash seeds while the transcript stayed "
         "equal; the ASan+UBSan build ran the same corpus with zero sanitizer reports. A clean sanitizer run is not "
         "memory safety (red-zone tools miss intra-object overflows)."
-        ' Load programs (concatenated dumps with shared and conflicting pairs, overwrite on/off) are part of the corpus.')
+        ' Load programs (concatenated dumps with shared and conflicting pairs, overwrite on/off) are part of the corpus.'
+        ' Copy programs (copy_expr_from into a fresh manager) are part of the corpus; their hash-seed dependent definition ORDER is the open finding KF8, any other difference a violation.')
 NOTE = ("Trusted: determinism of the generators (verified: a program generated differently in two configurations is "
         "reported as a harness failure); canonical transcript encoding. Leak detection is off (CPython arenas).")
 TECHNIQUE = "runtime monitoring: cross-configuration transcript comparison (build x hash seed, one process per configuration) + ASan/UBSan build of the Cython extension running the same corpus"
